@@ -47,6 +47,7 @@
  */
 #include "common.h"
 #include <unistd.h>
+#include <sys/time.h>
 #include "tree_data_sorted.c"
 #include "libyang.h"
 
@@ -1303,6 +1304,9 @@ main(void)
 {
     struct vcase c;
 
+    /* the answer of a case is written as one whole line at VEND() or not at all: a process that is killed in the middle
+     * of a case must not leave a partial line (it would be taken for the answer of the case) */
+    setvbuf(stdout, malloc(64 << 20), _IOFBF, 64 << 20);
     ly_set_log_clb(log_cb);
     ly_log_options(0);
     if (ly_ctx_new(NULL, 0, &ctx)) {
@@ -1318,8 +1322,21 @@ main(void)
         return 2;
     }
     while (vnext(&c)) {
-        /* a damaged tree can make the library loop for ever: the case then ends as CRASH(-14) */
-        alarm(4);
+        /* a damaged tree can make the library loop for ever: the case then ends as CRASH(-27) (SIGPROF). The limit is
+         * CPU time of this process (independent of the load of the machine), 5 s + 1 s per 25 ops (sanitizer builds
+         * of scripts with thousands of ops need tens of seconds) */
+        {
+            struct itimerval tv = {{0, 0}, {0, 0}};
+            long nops = 1;
+
+            for (const char *q = c.f[c.nf - 1]; *q; q++) {
+                if (*q == ' ') {
+                    nops++;
+                }
+            }
+            tv.it_value.tv_sec = 5 + nops / 25;
+            setitimer(ITIMER_PROF, &tv, NULL);
+        }
         if (!strcmp(c.f[0], "rbs") && (c.nf >= 3)) {
             run_rbs(&c);
         } else if (!strcmp(c.f[0], "lyds") && (c.nf >= 5)) {
@@ -1330,7 +1347,11 @@ main(void)
             printf("?");
         }
         VEND();
-        alarm(0);
+        {
+            struct itimerval tv = {{0, 0}, {0, 0}};
+
+            setitimer(ITIMER_PROF, &tv, NULL);
+        }
     }
     ly_ctx_destroy(ctx);
     return 0;
